@@ -202,7 +202,9 @@ def _pca_case(rng, nm=None, cplx=None, container=None, route=None):
 
 
 def cases(tier, seed):
-    out = []
+    from . import c16_highcond
+
+    out = list(c16_highcond.cases(tier))  # cond(X) = 1e4..1e6: invertibility assertions only
     i = 0
 
     def r():
@@ -580,7 +582,11 @@ def run_pca(case, obs):
 def run_case(case, obs):
     obs.cell(f"kind:{case['kind']}", f"container:{case['container']}", f"cplx:{case['cplx']}")
     try:
-        if case["kind"] == "wht":
+        if case["kind"] == "highcond":
+            from . import c16_highcond
+
+            c16_highcond.run_case(case, obs)
+        elif case["kind"] == "wht":
             run_wht(case, obs)
         elif case["kind"] == "wht_tiny":
             run_wht(case, obs, judge=False)
